@@ -8,6 +8,8 @@ import Driver.TraceCmd
 import Driver.CfgCmd
 import Driver.SessCmd
 import Driver.ApiCmd
+import Driver.AgentCmd
+import Driver.LinCmd
 open Whawty Whawty.Proto
 
 def unknownMsg : Bytes := [117, 110, 107, 110, 111, 119, 110]   -- "unknown"
@@ -84,7 +86,7 @@ def predict (cmd : List String) : Option String :=
     if script.startsWith "R" || sent.isEmpty then pure s!"{rc} {sBytes sent}" else pure s!"{rc} *"
   | ["pam.enc", u, p] => do
     pure s!"ok {sBytes (Sasl.pamEncode (← pBytes u) (← pBytes p))}"
-  | _ => ((StoreCmd.predict cmd).orElse fun _ => TraceCmd.predict cmd).orElse fun _ => (CfgCmd.predict cmd).orElse fun _ => (SessCmd.predict cmd).orElse fun _ => ApiCmd.predict cmd
+  | _ => ((StoreCmd.predict cmd).orElse fun _ => TraceCmd.predict cmd).orElse fun _ => (CfgCmd.predict cmd).orElse fun _ => (SessCmd.predict cmd).orElse fun _ => (ApiCmd.predict cmd).orElse fun _ => (AgentCmd.predict cmd).orElse fun _ => LinCmd.predict cmd
 
 def handle (line : String) : String :=
   let toks := (line.splitOn " ").filter (· ≠ "")
